@@ -80,6 +80,25 @@ def dequeRemove {α : Type} (l : List α) (i : Nat) : Option α × List α := (l
 /-- `HashMap::remove(key)`: the removed entry (if any) and the map afterwards -/
 def mapRemove (m : Store K V) (k : K) : Option (Entry V) × Store K V := (lookup k m, eraseKey k m)
 
+/-- `deque.retain(p)` -/
+def retain {α : Type} (l : List α) (p : α → Bool) : List α := l.filter p
+
+/-- `HashMap::insert(key, entry)` (replaces) -/
+def mapInsert (m : Store K V) (k : K) (e : Entry V) : Store K V := put k e m
+
+/-- the entry tuple `(value, unix seconds, frequency)` of the async cache; the model keeps births in ms -/
+def asyncEntry (v : V) (ts : Nat) (freq : Nat) : Entry V := ⟨v, ts * 1000, freq⟩
+
+/-- `fastrand::usize(..n)`: `r` is the raw draw -/
+def randBelow (r n : Nat) : Nat := r % n
+
+/-- `while let Some(x) = deque.pop_front() { body }` where `body` may `break`: `body x st = (stop?, st')` -/
+def whilePop {α σ : Type} : List α → σ → (α → σ → Bool × σ) → List α × σ
+  | [], st, _ => ([], st)
+  | x :: xs, st, body =>
+    let r := body x st
+    if r.1 then (xs, r.2) else whilePop xs r.2 body
+
 /-! ### f64 as an abstract structure -/
 
 structure F64 (F : Type) where
